@@ -36,6 +36,17 @@ CHECKS = [
      BASE_NOTE + "np.nextafter is an oracle (driver: exact float64 neighbour, cross-checked against numpy); float "
      "rounding inside the target rescaling is outside the proof and is observed by the exact spec evaluation on every run.",
      "Lean 4 proof about a hand-written model + differential correspondence check", "DESIGN.md §5 C03"),
+ chk("C02",
+     "Lean theorems prove for ALL sorted/unsorted score lists (ties allowed), easy counts, 6 metrics, 4 configurations "
+     "and every real target: C02_bracket (metric below/above the returned threshold brackets the clipped target within "
+     "one sample), C02_within/C02_tiefree (tie-free: metric at the threshold within 1/N), rescale_spec (the easy-sample "
+     "rescaling of each metric is exactly 'clip to the achievable range, express as a fraction of the scored samples'), "
+     "C02_member, C02_order (metric(lower) <= metric(higher): needs the method reversal), C02_between, C02_convex, "
+     "C02_monotone. Tied to /repo by a differential run of all threshold_at_* (+aliases, scalar/array) and by evaluating "
+     "the Lean spec predicates on the implementation's own matrices at and a few ulp either side of its thresholds.",
+     BASE_NOTE + "np.nextafter is an oracle; float rounding of the interpolation is outside the proof (the property's "
+     "'few ulp' allowance is applied when the spec is evaluated on the implementation).",
+     "Lean 4 proof about a hand-written model + differential correspondence check", "DESIGN.md §5 C02"),
 ]
 
 ALL = [f"C{i:02d}" for i in range(1, 21)]
